@@ -207,7 +207,7 @@ def extractString (src : List Nat) : Option (List Nat) :=
   let (_, c) := Fcppt.C15.peek s
   if s.fail then none else if c.isNone then w else none
 
-def splitList (s : String) : List String := if s = "_" then [] else s.splitOn ","
+def splitList (s : String) : List String := if s = "_" then [] else if s = "__" then [""] else s.splitOn ","
 
 def colorNames : List String := ["foo", "bar", "baz", "fo", "foobar"]
 
